@@ -122,8 +122,42 @@ def ctor_targets(tier, update_fns):
     """update_fns(cxx) -> [histogram_update Fn, update_op Fn]: the callee whose contract replaces the call"""
     out = []
     for tag, cxx, cty in ELEMS:
-        if tag == 'i16' and tier != 'thorough':
+        if tag == 'i8' and tier != 'thorough':       # byte-sized elements cost CBMC 3-5x more
             continue
         out.append(Target(f'ctor_{tag}', (lambda tag=tag, cxx=cxx: [ctor_fn(tag, cxx)] + update_fns(cxx)), 'specs/C20/ctor.h', enforce='hist_ctor',
                           replace=['histogram_update'], defines=elem_defines(tag, cty)))
+    return out
+
+
+def factory_fn(kind, tag, cxx):
+    """kind: thr | pct | rat -- the overloads that take the parameter list as a tensor"""
+    name = {'thr': 'make_from_thresholds', 'pct': 'make_from_percentiles', 'rat': 'make_from_ratios'}[kind]
+    sel = lambda d: astload.template_args(d) == [cxx + ' *'] and 'tensor_mem_t' in astload.param_types(d)[2]
+    calls = [(r'^sort\|void \(double \*, double \*\)', 'nv_sort_any2({0}, {1})' if tag == 'f64' else 'nv_sort_params({0}, {1})'),
+             (r'^sort\|void \(' + INT_ + r' \*, ' + INT_ + r' \*\)', 'nv_sort_values({0}, {1})'),
+             (r'^begin\|', '{0}.p'), (r'^end\|', '({0}.p + {0}.n)'), (r'^move\|', '{0}'),
+             (r'^ctor\|nano::histogram_t\|', 'nv_ctor_call({0}, {1}, {2})'),
+             (r'^ctor\|nano::tensor_t<nano::tensor_vector_storage_t, double, 1>\|void \(long\)', 'nv_t1d_make({0})'),
+             (r'^percentile_sorted\|', 'nv_ps_call({0}, {1}, {2}, NV_LOOPVAR_make_pct_1)'),
+             (r'^operator\(\)\|.*tensor_vector_storage_t, double, 1', '{0}.p[{1}]')] + ITER_CALLS
+    return Fn(f'make_{kind}', TU, name, flt=FLT, select=sel, types=HTYPES, calls=calls,
+              members=[(r'^size\|.*tensor_base_t<double, 1', 'nv_t1d_size')])
+
+
+def factory_targets(tier, update_fns):
+    out = []
+    # (make_from_percentiles / make_from_ratios: contracts written in factory.h but NOT wired -- see not_decided)
+    plan = [('thr', 'i64')]
+    if tier == 'thorough':
+        plan += [('thr', 'i16'), ('thr', 'i32'), ('thr', 'f64')]       # (f64: ~200 s of SAT time)
+    byt = {t: (c, ct) for t, c, ct in ELEMS}
+    for kind, tag in plan:
+        cxx, cty = byt[tag]
+        def pre(tag=tag, cxx=cxx):
+            c = ctor_fn(tag, cxx)
+            c.emit()
+            return f'struct nv_histogram;\n#define NV_HIST_CTOR_PROTO {c.printer.signature};\n'
+        out.append(Target(f'make_{kind}_{tag}', (lambda kind=kind, tag=tag, cxx=cxx: [factory_fn(kind, tag, cxx), ctor_fn(tag, cxx)] + update_fns(cxx)),
+                          'specs/C20/factory.h', enforce=f'make_{kind}', replace=['hist_ctor'], pre=pre, loops=(0 if kind == 'thr' else 1), timeout=290,
+                          defines=elem_defines(tag, cty) + (['NV_PARAM_MAX=1.0'] if kind == 'rat' else [])))
     return out
